@@ -1185,13 +1185,84 @@ FNS = {"chains": chk_chain, "thresholds": chk_threshold, "errors": chk_errors, "
        "gen_mprocess": lambda ctx, case: (chk_gm_errors if "post" in case else chk_gen_mprocess)(ctx, case)}
 
 
+def regen_own(ctx):
+    """translator tie (same protocol as flow.regen_check): gen/c06_py2coq.py regenerates Gallina definitions of compose_qoperations / _to_list,
+    _compose_qoperations (guard + 36-entry dispatch + inline bodies) and the loop / shape / threshold logic of the six _compose_qoperations_* helpers
+    from the CURRENT source of quara/objects/operators.py; coq/gen/C06_Equiv.v is re-checked against them.  returns (ok, info)"""
+    import os, re, shutil, subprocess, sys
+    import runner
+    V = runner.V
+    scratch = os.path.join(getattr(ctx, "scratch", os.path.join(V, "build", ctx.prop_id)), "gen")
+    os.makedirs(scratch, exist_ok=True)
+    gen_v = os.path.join(scratch, "Gen_c06.v")
+    for ext in (".vo", ".vos", ".vok", ".glob"):
+        try:
+            os.remove(gen_v[:-2] + ext)
+        except OSError:
+            pass
+    equiv = os.path.join(V, "coq", "gen", "C06_Equiv.v")
+    src = open(equiv).read()
+    src_nc = re.sub(r"\(\*.*?\*\)", " ", src, flags=re.S)
+    thms = re.findall(r"^\s*Theorem\s+([\w']+)", src_nc, flags=re.M)
+    ctx.theorems = list(ctx.theorems) + [t for t in thms if t not in ctx.theorems]
+    ctx.obligations += len(thms)
+    q = ["-Q", os.path.join(V, "coq", "theories"), "QV", "-Q", scratch, "QVGen"]
+    r = subprocess.run([sys.executable, os.path.join(V, "gen", "c06_py2coq.py"), os.environ.get("VERIF_REPO", "/repo"), gen_v], capture_output=True, text=True, timeout=120)
+    if r.returncode != 0:
+        return False, {"theorem": thms[0], "error": "translator rejected the source (outside its subset): " + (r.stdout + r.stderr)[-600:]}
+    r = subprocess.run(["timeout", "300", "coqc"] + q + [gen_v], capture_output=True, text=True)
+    if r.returncode != 0:
+        return False, {"theorem": thms[0], "error": "regenerated functions do not compile: " + (r.stdout + r.stderr)[-600:]}
+    dst = os.path.join(scratch, "C06_Equiv.v")
+    shutil.copy(equiv, dst)
+    r = subprocess.run(["timeout", "600", "coqc"] + q + [dst], capture_output=True, text=True)
+    out = r.stdout + r.stderr
+    if r.returncode != 0:
+        m_ = re.search(r"line (\d+), characters", out)
+        thm = None
+        if m_:
+            upto = "\n".join(src.splitlines()[:int(m_.group(1))])
+            names = re.findall(r"^\s*(?:Theorem|Lemma)\s+([\w']+)", upto, flags=re.M)
+            thm = names[-1] if names else None
+        return False, {"theorem": thm, "error": out[-800:]}
+    blocks = runner.parse_assumptions(out)
+    bad = [a for closed, axs in blocks for a in axs if a not in runner.ALLOWED_AXIOMS and a.split(".")[-1] not in runner.ALLOWED_AXIOMS]
+    if len(blocks) != len(thms) or bad:
+        return False, {"theorem": thms[0], "error": "assumption gate on regenerated proofs: %d blocks / %d theorems, disallowed %s" % (len(blocks), len(thms), bad)}
+    for t, (closed, axs) in zip(thms, blocks):
+        ctx.axioms[t] = "closed" if closed else sorted(set(axs))
+    ctx.discharged += len(thms)
+    return True, {}
+
+
 def run(ctx):
+    import runner
     ctx.rule = ("operands are exactly-rational physical objects (states LL^dag/tr, Cayley unitaries and their rational mixtures, Pythagorean "
                 "amplitude damping, POVMs t*A_x + PSD remainder / rotated projectors, instruments from Kraus sets and measure-and-prepare maps) "
                 "with different outcome counts per factor and non-commuting elements, on 1 qubit / qutrit / 2 qubits; chains of length 2..5, "
                 "bracketings: fold + left-nested + a random tree (quick) / all Catalan bracketings (thorough); non-trivial = no exact joint "
                 "probability inside (1e-11, 1e-5) (threshold band), distinct = distinct (operands, bracketing)")
-    flow.standard_run(ctx, SUBS)
+    # flow.standard_run extended by this property's translator tie: (1) Props/C06.v; (2) gen/c06_py2coq.py + coq/gen/C06_Equiv.v
+    ok, info = runner.check_props(ctx)
+    ok2, info2 = regen_own(ctx)
+    if not ok2:
+        ok, info = False, info2
+        ctx.note("regenerated-model obligations (gen/c06_py2coq.py / C06_Equiv) not discharged: %s" % str(info2)[:400])
+    if not ok:
+        ctx.discharged = min(ctx.discharged, ctx.obligations - 1)
+        # the tie is broken: widen the search for a concrete failing input (thorough-tier case counts for every sub-check)
+        ctx.tier_requested = ctx.tier
+        ctx.tier = "thorough"
+        ctx.note("tie broken: sub-checks run with thorough-tier counts")
+    for name, fn in SUBS:
+        if ctx.only is None or name in ctx.only:
+            fn(ctx)
+    if not ok and not ctx.violations:
+        ctx.violation("theorems", "Props/%s.v" % ctx.prop_id, "theorem-broken:%s" % info.get("theorem"),
+                      "theorem %s no longer checks: %s" % (info.get("theorem"), info.get("error", "")[-400:]),
+                      {"theorem": info.get("theorem"), "error": info.get("error")}, no_input=True)
+    elif not ok:
+        ctx.note("theorem obligations not discharged: %s" % info)
 
 
 def replay(ctx, doc):
